@@ -51,7 +51,7 @@ MUST_REACH = {"scenarios": 500, "hook_exceptions_raised": 100, "claims_observed"
               "script_addon_hook_runs": 20, "script_reloads_observed": 6,
               "script_addon_double_fault_scenarios": 10, "script_second_reloads_observed": 2,
               "arrival_messages_with_orphaned_tasks": 30,
-              "undecodable_body_scenarios": 30}
+              "undecodable_body_scenarios": 30, "async_subscriber_scenarios": 12}
 
 _ser = UDPMessageSerializer()
 _es = Settings()
@@ -920,6 +920,56 @@ def check_subscriber(ctx, level, which, behaviour, direction_in, reliable):
         h.close()
 
 
+def check_async_subscribers(ctx, level, which, direction_in, first_raises):
+    """Several coroutine subscribers (and a plain one after them) on the same message: each is its own subscriber and is run
+    once with the message - whatever the one before it does."""
+    import asyncio
+    h = Harness(1)
+    try:
+        target = h.session.message_handler if level == "session" else h.region.message_handler
+        name = "*" if which == "wildcard" else ("ChatFromSimulator" if direction_in else "ChatFromViewer")
+        calls = {"a": 0, "b": 0, "c": 0, "plain": 0}
+
+        async def sub_a(msg):
+            calls["a"] += 1
+            if first_raises:
+                raise ValueError("scripted async subscriber")
+
+        async def sub_b(msg):
+            calls["b"] += 1
+
+        async def sub_c(msg):
+            calls["c"] += 1
+        target.subscribe(name, sub_a)
+        target.subscribe(name, sub_b)
+        target.subscribe(name, sub_c)
+        target.subscribe(name, lambda m: calls.__setitem__("plain", calls["plain"] + 1))
+        text, data = h.chat(direction_in, False)
+
+        async def go():
+            exc = h.feed(direction_in, data)
+            for _ in range(5):
+                await asyncio.sleep(0)
+            return exc
+        exc = h.rig.loop.run_until_complete(go())
+        wit = {"hook": f"{level}.message_handler[{which}] coroutine subscribers", "direction": "in" if direction_in else "out",
+               "behaviour": "first raises" if first_raises else "none"}
+        ctx.ev()
+        ctx.count("scenarios")
+        ctx.count("async_subscriber_scenarios")
+        if exc is not None:
+            ctx.violation("exception-escaped-proxy:subscriber", "an exception left handle_proxied_packet", dict(wit, exc=repr(exc)[:300]))
+        if h.emissions_with_text(text) != 1:
+            ctx.violation("subscriber-emission-count", "emission count differs from what the subscribers' claims allow",
+                          dict(wit, count=h.emissions_with_text(text), expected=1))
+        if any(v != 1 for v in calls.values()):
+            ctx.violation("async-subscriber-not-called-once", "coroutine subscribers of one message were not each run exactly once",
+                          dict(wit, calls=dict(calls)))
+        ctx.nontrivial(("async-subscribers", level, which, direction_in, first_raises))
+    finally:
+        h.close()
+
+
 def check_rlv(ctx, behaviours, n_commands):
     h = Harness(len(behaviours))
     try:
@@ -1144,6 +1194,11 @@ def run(ctx):
             for rel in (False, True):
                 for cut in (1, 7):
                     others.append(("undecodable", beh, d, rel, cut))
+    for level in ("session", "region"):
+        for which in ("named", "wildcard"):
+            for d in (False, True):
+                for fr in (False, True):
+                    others.append(("asyncsub", level, which, d, fr))
     for fault in SCRIPT_FAULTS:
         for d in (False, True):
             others.append(("script", fault, d, fault in ("dep_dir_becomes_file", "script_syntax_error", "script_deleted")))
@@ -1173,6 +1228,8 @@ def run(ctx):
             check_script_addons(ctx, *o[1:])
         elif o[0] == "undecodable":
             check_undecodable_with_failing_hooks(ctx, *o[1:])
+        elif o[0] == "asyncsub":
+            check_async_subscribers(ctx, *o[1:])
         else:
             check_object_hook(ctx, o[1])
     # ownership sequences
